@@ -28,7 +28,8 @@ impl DumpRegistry {
         DumpRegistry {
             base_dir,
             rrdp_uris: HashMap::new(),
-            rrdp_dirs: HashSet::new(),
+            // The name "rsync" is taken by the rsync repository.
+            rrdp_dirs: HashSet::from(["rsync".into()]),
         }
     }
 
